@@ -26,7 +26,7 @@ RULE = ('programs x sequences of K<=2 control messages {rpc pause/play/kill/stat
 ASSUMPTIONS = ['the RabbitMQ transport itself is replaced by an in-process communicator that follows its observable protocol (pv/comm.py)',
                'an exception raised by a handler may reach the sender wrapped in RemoteException']
 REQUIRED = ['handlers_ran', 'twin_compared', 'replies_compared', 'announcements_checked', 'intent/pause', 'intent/play', 'intent/kill', 'intent/status',
-            'via/rpc', 'via/bcast', 'wrap/raw', 'wrap/loop', 'broadcast_faults', 'after_termination_checks', 'in_step_deliveries', 'idle_deliveries']
+            'via/rpc', 'via/bcast', 'wrap/raw', 'wrap/loop', 'broadcast_faults', 'after_termination_checks', 'in_step_deliveries', 'idle_deliveries', 'idle_thread_runs']
 BOUNDS = {'quick': '6 programs, K<=2 messages (K=2 sampled 1/3), all broadcast fault points', 'thorough': '14 programs + thread-mode delivery (400 runs)'}
 MSGS = [['rpc', 'pause', 'rp'], ['rpc', 'play', None], ['rpc', 'kill', 'rk'], ['rpc', 'status', None], ['bcast', 'pause', 'bp'], ['bcast', 'play', None],
         ['bcast', 'kill', 'bk']]
@@ -187,8 +187,12 @@ def gen_cases(tier, seed):
             for idx in range(1, ntrans + 1):
                 for kind in sorted(TOLERATED):
                     yield {'kind': 'bfault', 'name': name, 'program': prog, 'plan': [], 'wrap': wrap, 'bfail': {str(idx): kind}, 'drain': True, 'listener': False}
+    # a message sent from a communicator thread while the loop is idle (blocked waiting for events) must still be handled
+    P = programs.basic_programs()
+    for wrap in (False, True):
+        for m in (['rpc', 'pause', 'ip'], ['rpc', 'kill', 'ik'], ['rpc', 'status', None], ['bcast', 'kill', 'ibk']):
+            yield {'kind': 'idle', 'name': 'wait1', 'program': P['wait1'], 'msg': m, 'wrap': wrap}
     if tier == 'thorough':
-        P = programs.basic_programs()
         for i in range(400):
             name = rng.choice(sorted(P))
             msgs = [list(rng.choice(MSGS)) for _ in range(rng.randint(1, 3))]
@@ -203,9 +207,69 @@ def _summary(rec):
             'transitions': [e[1:] for e in rec['events'] if e[0] == 'state']}
 
 
+def run_idle(case):
+    """The loop is really idle (run_forever blocked in its selector); another thread sends one message and waits for the effect."""
+    import time
+    from pv.driver import Driver
+    V = judges.V
+    obs = {'idle_thread_runs': 1, 'wrap': {('loop' if case['wrap'] else 'raw'): 1}}
+    run = CommRun({'program': case['program'], 'plan': [], 'wrap': case['wrap'], 'drain': False, 'listener': False})
+    run._load_plan()
+    run.extra_tasks = []
+    viol = []
+    with Driver(100000) as drv:
+        run.drv = drv
+        programs.CURRENT_REC = run.rec
+        try:
+            run.proc = proc = run._construct(run._make_class(), drv.loop)
+        finally:
+            programs.CURRENT_REC = None
+        run.task = drv.loop.create_task(proc.step_until_terminated())
+        drv.pump()  # the process now waits; nothing is scheduled
+        m = case['msg']
+        outcome = {}
+
+        def sender():
+            time.sleep(0.05)  # let the main thread really block in the idle loop first
+            t0 = time.time()
+            try:
+                reply = None
+                if m[0] == 'rpc':
+                    fut = {'pause': lambda: run.ctl.pause_process(proc.pid, m[2]), 'kill': lambda: run.ctl.kill_process(proc.pid, m[2]),
+                           'status': lambda: run.ctl.get_status(proc.pid)}[m[1]]()
+                    reply = futures.unwrap_kiwi_future(fut)
+                else:
+                    run.ctl.kill_all(m[2])
+                # generous wall-clock watchdog (the operation takes about a millisecond when the loop is woken up)
+                while time.time() - t0 < 10:
+                    handled = (reply.done() if reply is not None else bool(run.handler_calls)) and (m[1] == 'status' or bool(run.handler_calls))
+                    if handled:
+                        break
+                    time.sleep(0.002)
+                outcome['handled_in_time'] = handled
+                outcome['waited'] = round(time.time() - t0, 3)
+                outcome['reply'] = _reply_desc(reply) if reply is not None else None
+            finally:
+                drv.loop.call_soon_threadsafe(drv.loop.stop)
+
+        th = threading.Thread(target=sender)
+        th.start()
+        drv.loop.run_forever()
+        th.join(15)
+        drv.pump()
+    if not outcome.get('handled_in_time'):
+        viol.append(V('idle-delivery-lost', 'idle-delivery-lost:%s:%s' % (m[0], 'loop' if case['wrap'] else 'raw'),
+                      'a %s %s message sent from another thread while the loop was idle was not handled within %ss (reply %s)' % (
+                          m[0], m[1], outcome.get('waited'), outcome.get('reply'))))
+    return {'viol': viol, 'obs': obs, 'key': case, 'nontrivial': True,
+            'sample': {'idle_thread_message': m, 'wrap': case['wrap'], 'outcome': outcome}}
+
+
 def run_case(case):
     if case['kind'] == 'thread':
         return run_thread(case)
+    if case['kind'] == 'idle':
+        return run_idle(case)
     V = judges.V
     obs = {'handlers_ran': 0, 'twin_compared': 0, 'replies_compared': 0, 'announcements_checked': 0, 'intent': {}, 'via': {}, 'wrap': {},
            'broadcast_faults': 0, 'after_termination_checks': 0, 'in_step_deliveries': 0, 'idle_deliveries': 0, 'tolerated_kinds': {}}
